@@ -175,6 +175,29 @@ pub fn invariant_state<S: Sch>(e: &Enr<S::K>, obs: &Obs) -> Vec<(&'static str, S
             Verdict::Unspecified(_) => {}
         }
     }
+    // the library's own encoder for a list of records (it relies on Encodable::length)
+    {
+        let r = real::guard(|| {
+            let v = vec![e.clone(), e.clone()];
+            let mut out = Vec::new();
+            alloy_rlp::Encodable::encode(&v, &mut out);
+            let declared = alloy_rlp::Encodable::length(e);
+            (out, declared)
+        });
+        match r {
+            Ok((out, declared)) => {
+                let mut payload = obs.enc.clone();
+                payload.extend_from_slice(&obs.enc);
+                if out != rlp::enc_list_payload(&payload) {
+                    v.push(("C04", "encoding a Vec of two copies of the record is not the RLP list of their encodings".into(), String::new()));
+                }
+                if declared != obs.enc.len() {
+                    v.push(("C04", "Encodable::length() differs from the length of the encoding".into(), format!("{declared} vs {}", obs.enc.len())));
+                }
+            }
+            Err(p) => v.push(("C03", "encoding a Vec<Enr> panics".into(), p)),
+        }
+    }
     // text / JSON round trips
     let text = &obs.text;
     if *text != format!("enr:{}", refspec::b64_encode(&obs.enc)) {
